@@ -63,7 +63,7 @@ def judge(c, res):
         if c['incfile'] and len(lines) >= 2:
             k = len(lines) // 2
             with open(os.path.join(incdir, 'part.asm'), 'w', encoding='utf-8') as f:
-                f.write('\n'.join(lines[k:]) + '\n')
+                f.write('\n'.join(lines[k:]) + ('\n' if len(lines) % 3 else ''))    # (one in three without a final newline)
             lines = lines[:k] + ['include part.asm']
         srck = c.get('src', 'cwd')
         srcdir = {'cwd': work, 'sub': os.path.join(work, 'src'), 'abs': os.path.join(root, 'proj')}[srck]
@@ -71,7 +71,7 @@ def judge(c, res):
         main_path = os.path.join(srcdir, 'main.asm')
         main_arg = {'cwd': 'main.asm', 'sub': os.path.join('src', 'main.asm'), 'abs': main_path}[srck]
         with open(main_path, 'w', encoding='utf-8') as f:
-            f.write('\n'.join(lines) + '\n')
+            f.write('\n'.join(lines) + ('\n' if (len(lines) + len(c['lines'])) % 3 else ''))    # (one in three without a final newline)
         o_rel = 'bb.out' if c['o'] == 'default' else c['o']
         paths = {'out': os.path.join(work, o_rel), 'hex': os.path.join(work, o_rel + '.hex')}
         if c['l']:
